@@ -272,9 +272,13 @@ theorem mode_flags_of_not_writing (m : Str) (md : Mode) (h : isWritingMode m = f
       · exact absurd hp (by simp)
       · split at hp
         · exact absurd hp (by simp)
-        · simp only [Option.some.injEq] at hp
-          subst hp
-          refine ⟨?_, ?_, ?_⟩ <;> simp only [hw, ha, hx] <;> decide
+        · split at hp
+          · exact absurd hp (by simp)
+          · split at hp
+            · exact absurd hp (by simp)
+            · simp only [Option.some.injEq] at hp
+              subst hp
+              refine ⟨?_, ?_, ?_⟩ <;> simp only [hw, ha, hx] <;> decide
 
 theorem step1_openbin_read_pure (s : State) (cs : List Name) (p m : Str) (h : isWritingMode m = false) :
     (step1 s cs (.openbin p m)).1 = s := by
